@@ -575,6 +575,54 @@ pub fn c14(thorough: bool, seed: u64) -> CheckOutput {
                 pass(&cycle);
             }
             let l10 = live();
+            // ... and with ONE generator that lives through all passes and is only ever reset(): what a
+            // generation allocated must be released by the reset, so once the buffers have reached
+            // their high-water marks (first pass) the live heap after a reset stays where it is
+            if reuse_one {
+                let mut g = cycle[0].build();
+                let mut one_pass = |g: &mut pickle_fuzzer::Generator| {
+                    for c in &cycle {
+                        g.min_opcodes = c.min;
+                        g.max_opcodes = c.max;
+                        if let Entropy::Seed(s) = c.entropy {
+                            g.seed = Some(s);
+                        }
+                        let out = gen_once(g, &c.entropy);
+                        drop(out);
+                        g.reset();
+                    }
+                };
+                one_pass(&mut g);
+                one_pass(&mut g);
+                let r2 = live();
+                for _ in 0..3 {
+                    one_pass(&mut g);
+                }
+                let r5 = live();
+                for _ in 0..5 {
+                    one_pass(&mut g);
+                }
+                let r10 = live();
+                drop(g);
+                acc.count("growth_long_lived_generator_runs", 1);
+                if r5.0 > r2.0 && r10.0 > r5.0 && r10.0 - r2.0 >= 1024 {
+                    let msg = format!(
+                        "live heap held by ONE generator that is reset() after every pickle keeps growing although the same {} (range, entropy) pairs are repeated: {} bytes after 2 passes, {} after 5, {} after 10 (measured right after reset())",
+                        cycle.len(),
+                        r2.0,
+                        r5.0,
+                        r10.0
+                    );
+                    acc.violate(Violation {
+                        property: "C14".into(),
+                        signature: "C14:unbounded_growth:long_lived_generator".into(),
+                        message: msg.clone(),
+                        replay: json!({"kind": "c14-growth", "property": "C14", "seed": seed, "run": i, "cycle_len": cycle.len(),
+                            "live_bytes": [r2.0, r5.0, r10.0], "message": msg,
+                            "first_configs": cycle.iter().take(3).map(|c| c.to_json()).collect::<Vec<_>>()}),
+                    });
+                }
+            }
             acc.count("growth_cycles_generations", (10 * cycle.len()) as u64);
             acc.count("growth_runs", 1);
             if l10.0 > l1.0 && l4.0 >= l1.0 && l10.0 >= l4.0 && l10.0 - l1.0 >= 64 {
